@@ -259,3 +259,124 @@ Proof.
     + rewrite lookup_insert, Hpe. cbn. by rewrite entry_remove_node.
     + by rewrite lookup_insert_ne.
 Qed.
+
+(* ---- creating an entry at a free path under a real directory (shared by mkdir and symlink) ---- *)
+Lemma add_absent m e base dir pe : WF m → e_path e = base :: dir → m_ents m !! dir = Some pe → e_dir pe = true → e_link pe = false →
+  m_ents m !! (base :: dir) = None →
+  ∃ m', add m e = (m', inl (base :: dir)) ∧ m_cwd m' = m_cwd m ∧ abs_nodes m' = <[base :: dir := node_of e None]> (abs_nodes m).
+Proof.
+  intros HW Hp Hpe Hd Hl Hx. unfold add. rewrite Hp, Hpe, Hd, Hl, Hx. cbn [negb orb].
+  set (m1 := if negb (e_link e) && e_file e then _ else m).
+  assert (Hm1e : m_ents m1 = m_ents m) by (unfold m1; by destruct (_ && _)).
+  assert (Hne : dir ≠ base :: dir) by (intros E; apply (f_equal length) in E; cbn in E; lia).
+  assert (Hpe2 : m_ents (upd_ents m1 (insert (base :: dir) e)) !! dir = Some pe) by (cbn; rewrite lookup_insert_ne by done; by rewrite Hm1e).
+  rewrite Hpe2. destruct (entry_add pe base) as [pe' fr] eqn:Ea.
+  assert (Hfresh : fr = true).
+  { unfold entry_add in Ea. destruct (e_files pe) as [fs|] eqn:Ef; [|by simplify_eq].
+    simplify_eq. apply negb_true_iff, bool_decide_eq_false. intros Hin.
+    assert (base ∈ files_of pe) by (unfold files_of; by rewrite Ef). destruct (wf_chl m HW _ _ _ Hpe H) as [? ?]. congruence. }
+  subst fr. eexists. split; [reflexivity|]. split; [unfold m1; by destruct (_ && _)|].
+  apply map_eq. intros q. rewrite lookup_abs_nodes. cbn [upd_ents m_ents m_data].
+  assert (Hdata : ∀ k, k ≠ base :: dir → m_data m1 !! k = m_data m !! k).
+  { intros k Hk. unfold m1. destruct (_ && _); cbn; [by rewrite lookup_insert_ne | done]. }
+  destruct (decide (q = dir)) as [->|Hqd].
+  - rewrite lookup_insert. cbn. rewrite lookup_insert_ne by done. rewrite lookup_abs_nodes, Hpe. cbn.
+    replace pe' with (entry_add pe base).1 by (by rewrite Ea). rewrite entry_add_node. by rewrite Hdata.
+  - rewrite lookup_insert_ne by done. destruct (decide (q = base :: dir)) as [->|Hqb].
+    + rewrite !lookup_insert. cbn. f_equal. unfold node_of. f_equal. unfold m1. destruct (_ && _); cbn; [by rewrite lookup_insert|].
+      destruct (m_data m !! (base :: dir)) eqn:Ed; [|done]. assert (is_Some (m_data m !! (base :: dir))) as Hs by eauto.
+      apply (wf_dat m HW) in Hs as (e0 & H0 & _). congruence.
+    + rewrite !lookup_insert_ne by done. rewrite Hm1e, Hdata by done. by rewrite lookup_abs_nodes.
+Qed.
+
+(* ---- mkdir ---- *)
+Definition def_mode_dir (mode : option N) : N := e_mode (new_dir [] mode).
+
+Theorem mkdir1_refines m p mode : WF m → kinds_ok m →
+  let '(m', r) := add m (new_dir p mode) in
+  abs m' = (spec_mkdir1 (abs m) p (def_mode_dir mode) def_uid def_gid).1 ∧ r = (spec_mkdir1 (abs m) p (def_mode_dir mode) def_uid def_gid).2.
+Proof.
+  intros HW HK. destruct p as [|base dir]; [done|].
+  unfold spec_mkdir1. rewrite (lookup_abs m dir).
+  destruct (m_ents m !! dir) as [pe|] eqn:Hpe; cbn [fmap option_fmap option_map].
+  2:{ unfold add. cbn [e_path new_dir]. by rewrite Hpe. }
+  cbn [node_of n_kind]. unfold kind_of_entry.
+  destruct (e_link pe) eqn:Hl.
+  { unfold add. cbn [e_path new_dir]. rewrite Hpe, Hl. by rewrite orb_true_r. }
+  destruct (e_dir pe) eqn:Hd.
+  2:{ unfold add. cbn [e_path new_dir]. rewrite Hpe, Hd. done. }
+  rewrite (lookup_abs m (base :: dir)).
+  destruct (m_ents m !! (base :: dir)) as [x|] eqn:Hx; cbn [fmap option_fmap option_map].
+  - unfold add. cbn [e_path new_dir e_file e_link e_dir]. rewrite Hpe, Hd, Hl, Hx. cbn [negb orb andb].
+    cbn [node_of n_kind]. unfold kind_of_entry. destruct (e_link x) eqn:Hxl; cbn [andb negb orb].
+    + by rewrite orb_true_r.
+    + rewrite orb_false_r. pose proof (HK _ _ Hx) as Hk. unfold kind_ok in Hk. destruct (e_dir x); cbn; done.
+  - destruct (add_absent m (new_dir (base :: dir) mode) base dir pe HW eq_refl Hpe Hd Hl Hx) as (m' & Ha & Hc & Hn).
+    rewrite Ha. split; [|done]. apply tree_eq; [done|]. intros q. cbn [fst t_nodes]. change (t_nodes (abs m')) with (abs_nodes m'). by rewrite Hn.
+Qed.
+
+Theorem mkdirs_refine ps : ∀ m mode, WF m → kinds_ok m →
+  let '(m', r) := mkdir_loop m ps mode in
+  abs m' = (spec_mkdirs (abs m) ps (def_mode_dir mode) def_uid def_gid).1 ∧ r = (spec_mkdirs (abs m) ps (def_mode_dir mode) def_uid def_gid).2.
+Proof.
+  induction ps as [|p ps IH]; intros m mode HW HK; cbn [mkdir_loop spec_mkdirs]; [done|].
+  pose proof (mkdir1_refines m p mode HW HK) as H1.
+  pose proof (add_wf m (new_dir p mode) HW (fresh_new_dir p mode)) as HW'.
+  assert (HK' : kinds_ok (add m (new_dir p mode)).1).
+  { unfold add. destruct (e_path (new_dir p mode)) as [|b d] eqn:Hp; [by destruct (e_file _)|].
+    destruct (m_ents m !! d) as [pe|] eqn:Hpe; [|done]. destruct (negb (e_dir pe) || e_link pe); [done|].
+    destruct (m_ents m !! (b :: d)) as [x|]; [repeat case_match; done|].
+    cbn [e_link e_file new_dir negb andb].
+    set (m2 := upd_ents m (insert (b :: d) (new_dir p mode))).
+    assert (HK2 : kinds_ok m2).
+    { intros q e Hq. unfold m2 in Hq. cbn in Hq. destruct (decide (q = b :: d)) as [->|Hn]; [rewrite lookup_insert in Hq; by simplify_eq|].
+      rewrite lookup_insert_ne in Hq by done. by eapply HK. }
+    destruct (m_ents m2 !! d) as [parent|] eqn:Hp2; [|exact HK2].
+    destruct (entry_add parent b) as [pe' fr] eqn:Ea.
+    assert (kinds_ok (upd_ents m2 (insert d pe'))).
+    { intros q e Hq. cbn in Hq. destruct (decide (q = d)) as [->|Hn].
+      - rewrite lookup_insert in Hq. simplify_eq. pose proof (HK2 _ _ Hp2) as Hk. unfold entry_add in Ea. destruct (e_files parent); simplify_eq; exact Hk.
+      - rewrite lookup_insert_ne in Hq by done. by eapply HK2. }
+    by destruct fr. }
+  destruct (add m (new_dir p mode)) as [m1 [q|e]]; destruct H1 as [Ha Hr];
+    destruct (spec_mkdir1 (abs m) p (def_mode_dir mode) def_uid def_gid) as [t1 r1]; cbn [fst snd] in *; subst.
+  - specialize (IH m1 mode HW' HK'). destruct (mkdir_loop m1 ps mode). exact IH.
+  - done.
+Qed.
+
+Theorem mkdir_p_refines m p mode : WF m → kinds_ok m →
+  let '(m', r) := mkdir_m_abs m p mode in
+  abs m' = (spec_mkdirs (abs m) ([] :: prefixes (rev p) []) (def_mode_dir mode) def_uid def_gid).1 ∧
+  r = (spec_mkdirs (abs m) ([] :: prefixes (rev p) []) (def_mode_dir mode) def_uid def_gid).2.
+Proof. intros HW HK. exact (mkdirs_refine ([] :: prefixes (rev p) []) m mode HW HK). Qed.
+
+(* ---- symlink ---- *)
+Theorem symlink_refines m lp tp : WF m → kinds_ok m →
+  let to_dir := match m_ents m !! tp with Some x => e_dir x | None => false end in
+  let e := new_link lp tp to_dir in
+  let '(m', r) := if bool_decide (is_Some (m_ents m !! lp)) then (m, inr EExistsAlready)
+                  else match lp with [] => (m, inr EParentNotFound) | _ => add m e end in
+  abs m' = (spec_symlink (abs m) lp tp (e_mode e) def_uid def_gid (e_rel e)).1 ∧
+  r = (spec_symlink (abs m) lp tp (e_mode e) def_uid def_gid (e_rel e)).2.
+Proof.
+  intros HW HK. cbn zeta. unfold spec_symlink. rewrite (lookup_abs m lp).
+  destruct (m_ents m !! lp) as [y|] eqn:Hy; cbn [fmap option_fmap option_map].
+  { rewrite bool_decide_eq_true_2 by eauto. done. }
+  rewrite bool_decide_eq_false_2 by (intros [? ?]; done).
+  destruct lp as [|base dir]; [done|]. rewrite (lookup_abs m dir).
+  destruct (m_ents m !! dir) as [pe|] eqn:Hpe; cbn [fmap option_fmap option_map].
+  2:{ unfold add. cbn [e_path new_link]. by rewrite Hpe. }
+  cbn [node_of n_kind]. unfold kind_of_entry.
+  destruct (e_link pe) eqn:Hl.
+  { unfold add. cbn [e_path new_link]. rewrite Hpe, Hl. by rewrite orb_true_r. }
+  destruct (e_dir pe) eqn:Hd.
+  2:{ unfold add. cbn [e_path new_link]. rewrite Hpe, Hd. done. }
+  set (to_dir := match m_ents m !! tp with Some x => e_dir x | None => false end).
+  destruct (add_absent m (new_link (base :: dir) tp to_dir) base dir pe HW eq_refl Hpe Hd Hl Hy) as (m' & Ha & Hc & Hn).
+  rewrite Ha. split; [|done]. apply tree_eq; [done|]. intros q. cbn [fst t_nodes]. change (t_nodes (abs m')) with (abs_nodes m'). rewrite Hn.
+  destruct (decide (q = base :: dir)) as [->|Hq]; [|by rewrite !lookup_insert_ne].
+  rewrite !lookup_insert. f_equal. unfold node_of, link_node. cbn [kind_of_entry new_link e_link e_mode e_uid e_gid e_alt e_rel e_dir andb default].
+  f_equal. rewrite (lookup_abs m tp). unfold to_dir. destruct (m_ents m !! tp) as [x|] eqn:Hx; cbn [fmap option_fmap option_map]; [|done].
+  cbn [node_of n_kind n_tdir]. unfold kind_of_entry. pose proof (HK _ _ Hx) as Hk. unfold kind_ok in Hk.
+  destruct (e_link x), (e_dir x); done.
+Qed.
